@@ -65,6 +65,8 @@ pub enum Op {
     /// create the join future now, await it with JoinAwait(k)
     JoinStart(H),
     JoinAwait(u8),
+    /// drop a join future without ever having polled it
+    JoinDrop(u8),
     Consume(H),
     /// consume_sync: Err at once, or a join future in the next future slot
     ConsumeSync(H),
@@ -444,6 +446,13 @@ async fn exec_op(h: &mut Handles, op: Op) -> Res {
         },
         Op::JoinAwait(k) => match h.joins.get_mut(k as usize).and_then(Option::take) {
             Some(f) => r_join(f.await),
+            None => EMPTY,
+        },
+        Op::JoinDrop(k) => match h.joins.get_mut(k as usize).and_then(Option::take) {
+            Some(f) => {
+                drop(f);
+                Res::Ok
+            }
             None => EMPTY,
         },
         Op::Consume(t) => match t {
